@@ -821,6 +821,14 @@ func main() {
 			Mode string `json:"mode"`
 		}
 		_ = json.Unmarshal(raw, &probe)
+		if probe.Mode == "stale" {
+			var x staleIn
+			must(json.Unmarshal(raw, &x))
+			if wLocal == nil {
+				wLocal = newWorld(false)
+			}
+			return runStale(wLocal, x)
+		}
 		if probe.Mode == "xnode" {
 			var x xIn
 			must(json.Unmarshal(raw, &x))
